@@ -1,4 +1,5 @@
 import Ruint.Model.Conv
+import Ruint.Gen.WordsConv
 /-! Driver for C07: model = `Ruint.Conv.*`/`Ruint.Canon.*`; spec = range tests and `%` on `Int`/`Nat`. -/
 open Ruint Ruint.Conv Ruint.Canon
 
@@ -54,6 +55,33 @@ def wrapTo (t : Prim) (x : Nat) : Int :=
 /-- last token of the implementation's output, as a number -/
 def lastTok (impl : String) : Nat := parseHex ((impl.splitOn " ").getLast?.getD "0")
 
+/-! results of the functions GENERATED from src/from.rs (`Gen/WordsConv.lean`; `Props/C07.gen_*_eq`), mapped back to the
+    models' result types: primitive integers are bit patterns there -/
+def genToRes : Option (Except (Nat × Nat × List Nat) (List Nat)) → ToRes
+  | none => .panic
+  | some (.ok l) => .ok l
+  | some (.error (0, b, l)) => .tooLarge b l
+  | some (.error (1, b, l)) => .negative b l
+  | some (.error _) => .panic
+def genFrom (t : Prim) : Except (Nat × Nat × Nat × Nat) Nat → FromRes
+  | .ok p => .ok (castTo t p)
+  | .error (_, b, w, m) => .overflow b (castTo t w) (castTo t m)
+def genFromB : Except (Nat × Nat × Bool × Bool) Bool → FromRes
+  | .ok p => .ok (if p then 1 else 0)
+  | .error (_, b, w, m) => .overflow b (if w then 1 else 0) (if m then 1 else 0)
+
+/-- `T::try_from(&uint)` through the generated function of the target type (canonical operand) -/
+def genTryTo (isBool : Bool) (t : Prim) (bits : Nat) (a : List Nat) : FromRes :=
+  let L := nlimbs bits
+  let f := L + 1
+  if isBool then genFromB (Ruint.Gen.bool_try_from_uint f bits L a)
+  else genFrom t (match t.width, t.signed with
+    | 8, true => Ruint.Gen.i8_try_from_uint f bits L a | 8, false => Ruint.Gen.u8_try_from_uint f bits L a
+    | 16, true => Ruint.Gen.i16_try_from_uint f bits L a | 16, false => Ruint.Gen.u16_try_from_uint f bits L a
+    | 32, true => Ruint.Gen.i32_try_from_uint f bits L a | 32, false => Ruint.Gen.u32_try_from_uint f bits L a
+    | 64, true => Ruint.Gen.i64_try_from_uint f bits L a | 64, false => Ruint.Gen.u64_try_from_uint f bits L a
+    | 128, true => Ruint.Gen.i128_try_from_uint f bits L a | _, _ => Ruint.Gen.u128_try_from_uint f bits L a)
+
 def fromOps (op : String) (bits : Nat) (t : Prim) (v : Int) (impl : String) : String × String :=
   let m : Int := (2 ^ bits : Nat)
   let wrapped := toHex (v % m).toNat
@@ -65,7 +93,11 @@ def fromOps (op : String) (bits : Nat) (t : Prim) (v : Int) (impl : String) : St
     else "pred:false expected " ++ pfx ++ "<canonical payload>"
   match op with
   | "try_from" =>
-    (toResStr (tryFrom bits t v),
+    -- unsigned sources: the generated `TryFrom<u64>` / `TryFrom<u128>` (`value as u64` is the value itself)
+    (toResStr (if !t.signed && decide (0 ≤ v) && decide (v ≤ t.max) && decide (t.width ≥ 8) then
+        genToRes (if t.width = 128 then Ruint.Gen.uint_try_from_u128 bits (nlimbs bits) v.toNat
+                  else Ruint.Gen.uint_try_from_u64 bits (nlimbs bits) v.toNat)
+      else tryFrom bits t v),
       if v < 0 then (if pinned then "err Negative " ++ bs ++ " " ++ wrapped else canonPayload ("err Negative " ++ bs ++ " "))
       else if v < m then "ok " ++ showS v else "err TooLarge " ++ bs ++ " " ++ wrapped)
   | "from" => (resStr («from» bits t v), if 0 ≤ v ∧ v < m then showS v else "panic")
@@ -81,7 +113,8 @@ def toOps (op : String) (bits : Nat) (isBool : Bool) (t : Prim) (xs : String) : 
   let bs := toString bits
   match op with
   | "try_to" | "try_to_val" =>
-    (fromResStr (tryTo isBool t bits a),
+    (fromResStr (if decide (x < 2 ^ bits) && (isBool || [8, 16, 32, 64, 128].contains t.width) then genTryTo isBool t bits a
+                 else tryTo isBool t bits a),
       if fits then "ok " ++ toHex x else "err Overflow " ++ bs ++ " " ++ showS (wrapTo t x) ++ " " ++ showS t.max)
   | "to" => (match «to» isBool t bits a with | some v => showS v | none => "panic",
       if fits then toHex x else "panic")
